@@ -323,6 +323,15 @@ pub fn store(a: &[Sx]) -> String {
             Some(v) => v,
             None => return format!("bad-type {}", items[1].sym()),
         };
+        // `(xID type bare)`: the option may be given without a value and IS given that way (implementation-only stream
+        // store-empty): the entry is present and holds an empty occurrence
+        if items.len() == 3 && matches!(&items[2], Sx::Sym(b) if b == "bare") {
+            cmd = cmd.arg(
+                Arg::new(id.clone()).long(id.clone()).action(ArgAction::Append).num_args(0..).value_parser(vp),
+            );
+            argv.push(OsString::from(format!("--{id}")));
+            continue;
+        }
         cmd = cmd.arg(Arg::new(id.clone()).long(id.clone()).action(ArgAction::Append).value_parser(vp));
         for v in &items[2..] {
             let mut w = format!("--{id}=").into_bytes();
